@@ -37,7 +37,10 @@ Runs == {RunGlyph(r, s, on) : r \in RunLens, s \in {0, 1, 256}, on \in BOOLEAN}
 Comp(gid, anchor, a1, a2, xf, round, metrics, scaled, unscaled, overlap) ==
   [gid |-> gid, anchor |-> anchor, a1 |-> a1, a2 |-> a2, xf |-> xf, round |-> round, metrics |-> metrics,
    scaled |-> scaled, unscaled |-> unscaled, overlap |-> overlap]
-XFs == {<<One, 0, 0, One>>, <<8192, 0, 0, 8192>>, <<8192, 0, 0, -16384>>, <<One, 4096, -4096, One>>, <<-32768, 0, 0, 32767>>}
+\* identity, uniform scale, x/y scale, 2x2, the extremes - and the shapes in which exactly one diagonal term is 1.0 (a flip or a
+\* squeeze along one axis only) or one off-diagonal term is 0
+XFs == {<<One, 0, 0, One>>, <<8192, 0, 0, 8192>>, <<8192, 0, 0, -16384>>, <<One, 4096, -4096, One>>, <<-32768, 0, 0, 32767>>,
+        <<One, 0, 0, -16384>>, <<One, 0, 0, 8192>>, <<-16384, 0, 0, One>>, <<One, 4096, 0, One>>, <<One, 0, 4096, One>>}
 Args == {<<"offset", 0, 0>>, <<"offset", -128, 127>>, <<"offset", -129, 5>>, <<"offset", 3, 128>>, <<"offset", -32768, 32767>>,
          <<"point", 0, 1>>, <<"point", 255, 255>>, <<"point", 256, 2>>, <<"point", 7, 65535>>}
 Comps1 == {Comp(5, a[1], a[2], a[3], xf, r, m, FALSE, FALSE, o) : a \in Args, xf \in XFs, r \in BOOLEAN, m \in BOOLEAN, o \in BOOLEAN}
